@@ -331,4 +331,12 @@ func NewRegisterCommand$1$1 returns (err)
   ghost before dyncall 1 {
     assert @files [C16] len(#arg0) == 2 && #arg0[0] == o.GlobalConfig.DbFileName && #arg0[1] == o.GlobalConfig.LogFileName
   }
+
+// the register command's own flag table: the option names the options loader and the reporters read
+macro RegStrFlag(f cli.Flag, name string) bool := typeis(f, "*cli.StringFlag") && payload(f) != 0 && ptr(cli.StringFlag, payload(f)).Name == name
+macro RegBoolFlag(f cli.Flag, name string) bool := typeis(f, "*cli.BoolFlag") && payload(f) != 0 && ptr(cli.BoolFlag, payload(f)).Name == name
+func NewRegisterCommand returns (cmd)
+  props C16 C15 C08
+  ensures @name cmd != nil && cmd.Name == "register" && len(cmd.Aliases) == 1 && cmd.Aliases[0] == "reg"
+  ensures @flags [C16 C15] len(cmd.Flags) == 12 && RegStrFlag(cmd.Flags[0], "begin") && RegStrFlag(cmd.Flags[1], "end") && RegStrFlag(cmd.Flags[2], "single-food") && RegStrFlag(cmd.Flags[3], "single-element") && RegBoolFlag(cmd.Flags[4], "group-food") && RegBoolFlag(cmd.Flags[5], "csv") && RegBoolFlag(cmd.Flags[6], "no-color") && RegBoolFlag(cmd.Flags[7], "no-totals") && RegBoolFlag(cmd.Flags[8], "totals-only") && RegBoolFlag(cmd.Flags[9], "shorten") && RegBoolFlag(cmd.Flags[10], "use-old-reg-reporter") && RegStrFlag(cmd.Flags[11], "internal-template-name")
 @*/
